@@ -511,35 +511,77 @@ func ruleRestBoundAfterWalk(p *Program, r *Report) {
 	}
 	it := pat.Underlying().(*types.Interface)
 	n := 0
-	for _, fn := range p.RepoFns {
-		if fn.Parent() != nil || fn.Name() != "Bind" || fn.Signature.Recv() == nil || fn.Synthetic != "" {
-			continue
+	isBindCall := func(c *ssa.Call) bool {
+		if c.Call.IsInvoke() {
+			return c.Call.Method.Name() == "Bind"
 		}
-		rt := fn.Signature.Recv().Type()
-		if !(types.Implements(rt, it) || types.Implements(types.NewPointer(rt), it)) {
-			continue
+		g := c.Call.StaticCallee()
+		return g != nil && g.Name() == "Bind"
+	}
+	// bindParams(h): parameters of a package-local helper whose value reaches the value argument of a sub-pattern
+	// Bind inside it (directly or through a further helper)
+	var bindParams func(h *ssa.Function, depth int) map[int]bool
+	bindParams = func(h *ssa.Function, depth int) map[int]bool {
+		out := map[int]bool{}
+		if h == nil || h.Blocks == nil || depth > 2 {
+			return out
 		}
-		var binds []*ssa.Call
+		var body []*ssa.Function
+		allFuncs(h, &body)
+		for _, g := range body {
+			ForEachInstr(g, func(ins ssa.Instruction) {
+				c, ok := ins.(*ssa.Call)
+				if !ok || len(c.Call.Args) == 0 {
+					return
+				}
+				var vals []ssa.Value
+				if isBindCall(c) {
+					vals = append(vals, c.Call.Args[len(c.Call.Args)-1])
+				} else if k := c.Call.StaticCallee(); k != nil && k.Pkg == h.Pkg && k != h && k.Name() != "Bind" {
+					for i := range bindParams(k, depth+1) {
+						if i < len(c.Call.Args) {
+							vals = append(vals, c.Call.Args[i])
+						}
+					}
+				}
+				for _, v := range vals {
+					for i, q := range h.Params {
+						if DependsOn(v, func(x ssa.Value) bool { return x == ssa.Value(q) }) {
+							out[i] = true
+						}
+					}
+				}
+			})
+		}
+		return out
+	}
+	type bindSite struct {
+		call *ssa.Call
+		val  ssa.Value
+	}
+	// analyse one function of a pattern's body: (has a bind site, has a violation)
+	analyse := func(top, fn *ssa.Function) (bool, bool) {
+		var binds []bindSite
 		ForEachInstr(fn, func(ins ssa.Instruction) {
 			c, ok := ins.(*ssa.Call)
-			if !ok {
+			if !ok || len(c.Call.Args) == 0 {
 				return
 			}
-			name := ""
-			if c.Call.IsInvoke() {
-				name = c.Call.Method.Name()
-			} else if g := c.Call.StaticCallee(); g != nil {
-				name = g.Name()
+			if isBindCall(c) {
+				binds = append(binds, bindSite{c, c.Call.Args[len(c.Call.Args)-1]})
+				return
 			}
-			if name == "Bind" {
-				binds = append(binds, c)
+			if h := c.Call.StaticCallee(); h != nil && h.Pkg == fn.Pkg && h.Name() != "Bind" && h.Blocks != nil {
+				for i := range bindParams(h, 0) {
+					if i < len(c.Call.Args) {
+						binds = append(binds, bindSite{c, c.Call.Args[i]})
+					}
+				}
 			}
 		})
 		if len(binds) == 0 {
-			continue
+			return false, false
 		}
-		n++
-		r.Fn(FnName(fn))
 		bad := false
 		// blocks that are exclusively on the rest branch: dominated by the true successor of an
 		// is-ExtraElementPattern test
@@ -588,11 +630,12 @@ func ruleRestBoundAfterWalk(p *Program, r *Report) {
 				return header && Reaches(ph.Block(), at, false) && Reaches(at, ph.Block(), false)
 			})
 		}
-		for _, c := range binds {
+		for _, bs := range binds {
+			c := bs.call
 			if !Reaches(c.Block(), c.Block(), false) {
 				continue // not inside a loop
 			}
-			val := c.Call.Args[len(c.Call.Args)-1]
+			val := bs.val
 			type cand struct {
 				v   ssa.Value
 				blk *ssa.BasicBlock
@@ -607,10 +650,44 @@ func ruleRestBoundAfterWalk(p *Program, r *Report) {
 			for _, cd := range cands {
 				if onRest(cd.blk) && loopState(cd.v, c.Block()) {
 					bad = true
-					r.Viol("rest@"+FnName(fn), fmt.Sprintf("%s binds its `...rest` component inside the walk over the pattern's components, from the remainder as it stands at that point: components written after `...rest` are still part of what it captures (`let {...t, k: x} = …` binds t to the whole value)", FnName(fn)), c.Pos())
+					r.Viol("rest@"+FnName(top), fmt.Sprintf("%s binds its `...rest` component inside the walk over the pattern's components, from the remainder as it stands at that point: components written after `...rest` are still part of what it captures (`let {...t, k: x} = …` binds t to the whole value)", FnName(fn)), c.Pos())
 				}
 			}
 		}
+		return true, bad
+	}
+	for _, fn := range p.RepoFns {
+		if fn.Parent() != nil || fn.Name() != "Bind" || fn.Signature.Recv() == nil || fn.Synthetic != "" {
+			continue
+		}
+		rt := fn.Signature.Recv().Type()
+		if !(types.Implements(rt, it) || types.Implements(types.NewPointer(rt), it)) {
+			continue
+		}
+		// the pattern's body: the method, and the package-local helpers the walk was moved into
+		body := []*ssa.Function{fn}
+		seenB := map[*ssa.Function]bool{fn: true}
+		for i := 0; i < len(body) && i < 12; i++ {
+			ForEachInstr(body[i], func(ins ssa.Instruction) {
+				if c, ok := ins.(*ssa.Call); ok {
+					if h := c.Call.StaticCallee(); h != nil && h.Pkg == fn.Pkg && h.Name() != "Bind" && h.Blocks != nil && !seenB[h] && len(bindParams(h, 0)) > 0 {
+						seenB[h] = true
+						body = append(body, h)
+					}
+				}
+			})
+		}
+		has, bad := false, false
+		for _, f := range body {
+			h2, b2 := analyse(fn, f)
+			has = has || h2
+			bad = bad || b2
+		}
+		if !has {
+			continue
+		}
+		n++
+		r.Fn(FnName(fn))
 		if !bad {
 			r.OK("rest@"+FnName(fn), "no rest binding inside the walk from the running remainder", fn.Pos())
 		}
